@@ -81,8 +81,7 @@ static void check_wire(Pair &P, int side, const uint8_t *p, size_t k)
 	P.framer[side].feed(p, k, recs);
 	for (auto &r : recs) {
 		VF_CHECK(r.type >= 20 && r.type <= 23, "%s: %s emitted a record of type %u (wire is not a sequence of well-formed records)", P.cfg.c_str(), P.e[side]->name.c_str(), r.type);
-		// (an alert sent by close() before any hello has been seen carries version 0: not judged here)
-		VF_CHECK((r.version >= 0x0301 && r.version <= 0x0303) || (r.version == 0 && r.type == 21 && !P.e[side]->handshake_done()),
+		VF_CHECK(r.version >= 0x0301 && r.version <= 0x0303,
 			"%s: %s emitted a record with version %04x", P.cfg.c_str(), P.e[side]->name.c_str(), r.version);
 		VF_CHECK(r.payload.size() <= 16384 + 2048, "%s: %s emitted a %zu-byte record", P.cfg.c_str(), P.e[side]->name.c_str(), r.payload.size());
 	}
